@@ -15,7 +15,7 @@ R-C05-7  = R-C17-3 for RangeStatement::init: the statement the verifier reads st
 """
 from bpsa.facts import callee_decl, callee_name
 from bpsa.normal import canon
-from bpsa.terms import walk, short, TERM_IDX, mk_elem
+from bpsa.terms import ev_site, walk, short, TERM_IDX, mk_elem
 from .common import guard_table, unconditional
 from . import wire, msm, weights, C04
 from .weights import strip
@@ -225,7 +225,7 @@ def generator_ranges(t, ctx=None):
             if k == 'mut' and ctx is not None:
                 for e in x[2]:
                     if e.tag == 'ev' and e[1] == 'call' and e[2].endswith('::push') and e[4]:
-                        bkey, pbb = e[4][-1]
+                        bkey, pbb = ev_site(e)
                         body = ctx.facts.by_key.get(bkey)
                         lps = ctx.enclosing_loops(body, pbb) if body is not None else []
                         if lps and lps[-1].iter_term is not None and lps[-1].driver_only_exit and ctx.every_iteration(body, lps[-1], pbb):
